@@ -93,7 +93,8 @@ PROPS = {
              'refresh-preview, toggle-preview) 0..150 ms apart; the number of live preview processes is sampled after every '
              'action; at quiescence (state and log stable for 0.75 s; 2 s more when not caught up) the last logged invocation, '
              'the preview pane, and after the session the process table and $TMPDIR are observed (24 sessions quick, 400 thorough)'
-             '; sessions whose input arrives in two parts under --tail with {+} in the template: selected lines are trimmed away while the cursor rests; the selection the last command ran with must be the one fzf reports at rest',
+             '; sessions whose input arrives in two parts under --tail with {+} in the template: selected lines are trimmed away while the cursor rests; the selection the last command ran with must be the one fzf reports at rest'
+             '; commands that stay silent beyond the "Loading .." delay and then print several lines',
         trusted=['tmux as terminal emulator', '/proc as process table', 'the schedules actually produced (the theorems quantify '
                  'over all traces of the model, the sessions sample schedules of the implementation)'],
         level_text='Lean 4 theorems over a transition-system model of the previewer (mailbox holding only the latest request, '
@@ -111,7 +112,7 @@ PROPS = {
                   'sessions against the real binary judged by the model\'s guarantees',
     ),
     'C13': dict(
-        areas=[('matcher', 300, 20000), ('rank', 3000, 300000)],
+        areas=[('matcher', 300, 20000), ('rank', 3000, 300000), ('reader', 3000, 300000)],
         procs=['race'],
         rule='matcher area: real Matcher over 3..3000 generated lines; scans with 1..32 partitions with a reset posted before / '
              'concurrently with the scan; searches through Matcher.Loop while a loader goroutine is pushing (snapshot counts '
@@ -120,7 +121,8 @@ PROPS = {
              'after later pushes and snapshots (with and without --tail). matcher histo: request histories with --tail '
              '(Snapshot trims inside and across chunks; its changed result and the snapshot contents are compared with the '
              'heap model; every request, final or not, must be answered with the filter of its own snapshot). race: the '
-             'same concurrent cases in a harness built with -race',
+             'same concurrent cases in a harness built with -race'
+             '; the scripted-reader cases of C06 (an item that has been handed over never changes)',
         trusted=['Go memory model / race detector for the race driver', 'sort.Sort', 'Go unicode tables',
                  'the schedules actually produced by the Go runtime (the theorems quantify over all traces of the model, the '
                  'runs sample schedules of the implementation)'],
@@ -372,7 +374,8 @@ PROPS = {
              'and escaped ones, 0..3 items, 0..3 selected, AWK / literal delimiters; every expansion is evaluated by the real '
              '/bin/sh (dash) and bash (printf %s\\0); non-trivial = an item or query containing a character special to the '
              'shell is substituted; distinct = distinct case lines'
-             '; expansion sessions also select several items by ONE action list and by select-all before {+} is expanded',
+             '; expansion sessions also select several items by ONE action list and by select-all before {+} is expanded'
+             '; queries and items containing text that looks like a placeholder',
         trusted=['/bin/sh (dash) and bash as the reference for POSIX word splitting; the Lean shell model ShEval is compared '
                  'with both on every quoted string', 'fish is not installed: its single-quote rule is modelled, not validated',
                  'the placeholder regular expression (templates are lists of blank-separated parts)'],
